@@ -111,6 +111,7 @@ type loopInfo struct {
 	cands []*invCand
 	vis, visKey, visKeySort, visOk string
 	point string // where an invariant is being evaluated: entry, head, back
+	vacDone bool
 }
 
 type Enc struct {
@@ -493,6 +494,9 @@ func (e *Enc) store(fr *Frame, st *State, a *Addr, v string) *State {
 				h := e.fieldHeap(a.typ, u, i)
 				ns := e.newState(sStore, st)
 				ns.heap, ns.loc, ns.val = h, a.loc, sel(a.typ, u, i, v)
+				if e.privateRefs[a.loc[0]] {
+					ns.ver = st.ver // no callee can see an object whose address never escapes
+				}
 				st = ns
 			}
 			return st
@@ -510,6 +514,9 @@ func (e *Enc) store(fr *Frame, st *State, a *Addr, v string) *State {
 	}
 	ns := e.newState(sStore, st)
 	ns.heap, ns.loc, ns.val = a.heap, a.loc, nv
+	if e.privateRefs[a.loc[0]] {
+		ns.ver = st.ver
+	}
 	return ns
 }
 
@@ -761,6 +768,15 @@ func (e *Enc) encodeBody(fr *Frame, st0 *State, callReach string) {
 				} else {
 					st = e.newState(sJoin, nil)
 					st.conds, st.preds = conds, preds
+					sameVer := true
+					for _, p := range preds[1:] {
+						if p.ver != preds[0].ver {
+							sameVer = false
+						}
+					}
+					if sameVer {
+						st.ver = preds[0].ver
+					}
 					nx := e.freshConst(fr.pfx+"nxt", "Int")
 					for i, p := range preds {
 						e.assume("(=> " + conds[i] + " (= " + nx + " " + p.nxt + "))")
@@ -802,6 +818,7 @@ func (e *Enc) encodeBody(fr *Frame, st0 *State, callReach string) {
 			}
 			st = e.instr(fr, st, in)
 		}
+		e.siteGhosts(fr, b, st)
 		fr.out[b] = st
 		fr.reach[b] = e.cur // an inlined call that does not return ends the block early
 		// back edges: loop invariants must be re-established
@@ -980,6 +997,27 @@ func (e *Enc) loopHead(fr *Frame, li *loopInfo, entry *State, conds []string, pr
 		nx := e.freshConst(fr.pfx+"nxtL", "Int")
 		e.assume("(>= " + nx + " " + entry.nxt + ")")
 		s.nxt = nx
+	}
+	if len(s.stored) == 0 && len(s.full) == 0 {
+		s.ver = entry.ver // the loop writes no pre-existing object
+	}
+	// private allocations of this frame (address never escapes) that no store inside the loop is rooted at
+	// keep their contents across the loop
+	written := map[ssa.Value]bool{}
+	for b := range li.body {
+		for _, in := range b.Instrs {
+			if st, ok := in.(*ssa.Store); ok {
+				if r := rootAllocOf(st.Addr); r != nil {
+					written[r] = true
+				}
+			}
+		}
+	}
+	s.keep = map[string]bool{}
+	for v, t := range fr.vals {
+		if al, ok := v.(*ssa.Alloc); ok && e.privateRefs[t] && !written[al] && !li.body[al.Block()] {
+			s.keep[t] = true
+		}
 	}
 	li.state = s
 	return s
@@ -1347,4 +1385,23 @@ func addrEscapes(v ssa.Value) bool {
 		}
 	}
 	return false
+}
+
+func rootAllocOf(v ssa.Value) *ssa.Alloc {
+	for {
+		switch x := v.(type) {
+		case *ssa.Alloc:
+			return x
+		case *ssa.FieldAddr:
+			v = x.X
+		case *ssa.IndexAddr:
+			if _, ok := x.X.Type().Underlying().(*types.Pointer); ok {
+				v = x.X
+			} else {
+				return nil
+			}
+		default:
+			return nil
+		}
+	}
 }
